@@ -252,7 +252,8 @@ class C08(Check):
         ]
 
     def replay(self, name, model, rec):
-        return None
+        from checks import replay_server
+        return replay_server.replay_c08(name, model, rec)
 
 
 CHECK = C08()
